@@ -36,7 +36,8 @@ CONSTANTS
                 \* directory the link really lands in) | "none" (sensitivity)
     Fuel,       \* symlink expansions per walk before ELOOP
     EmitEsc,    \* TRUE: print the request history of every escaping transition
-    Bias,       \* "all" | "ok": (simulation) only requests that succeed or escape
+    Bias,       \* "all" | "ok": only requests that succeed or escape |
+                \* "chg": only requests that change the file system or escape
     RandK       \* (simulation, SimSpec) random candidate requests per step
 
 AllOps == {"open_r", "open_w", "stat", "lstat", "mkdir", "rmdir", "remove",
@@ -54,6 +55,7 @@ VARIABLES
 
 vars == <<fs, n, esc, lbl, hist, itree>>
 view == <<fs, n, esc>>
+viewfs == <<fs, esc>>        \* script generation: every file-system shape once
 
 Base == (<<>> :> DirNode) @@ (Top :> DirNode) @@ (RootLoc :> DirNode)
 Universe == {RootLoc \o s : s \in SeqsUpTo(Names, 1, Depth)} \cup
@@ -238,9 +240,14 @@ Step(op, p, q) ==
     LET r == Do(fs, op, p, q)
         g == IF r.fs = fs THEN fs ELSE Canon(r.fs) IN
     /\ Bias = "ok" => (r.st = "ok" \/ \E l \in r.touched : ~Under(RootLoc, l))
+    /\ Bias = "chg" => (g # fs \/ \E l \in r.touched : ~Under(RootLoc, l))
     /\ Created(g) \subseteq Universe
     /\ Cardinality(Created(g)) <= MaxNodes
-    /\ (g # fs /\ op \in {"symlink", "rename", "posix_rename", "link"}) => ~HasLoop(g, Fuel)
+    /\ IF g # fs /\ op \in {"symlink", "rename", "posix_rename", "link"} /\ HasLoop(g, Fuel)
+       THEN \* not explored further (ELOOP is not modelled), but the request is
+            \* handed to the harness: it must not escape either
+            PrintT(<<"LOOP", Append(hist, <<op, p, q>>), itree>>) /\ FALSE
+       ELSE TRUE
     /\ fs' = g
     /\ n' = n + 1
     /\ esc' = \E l \in r.touched : ~Under(RootLoc, l)
@@ -275,6 +282,22 @@ AllTouchedUnderRoot == ~esc
 TypeOK ==
     /\ \A l \in DOMAIN fs : fs[l].k \in {"dir", "file", "link"}
     /\ \A l \in DOMAIN fs \ {<<>>} : Node(fs, Parent(l)).k = "dir"
+
+(* Script generation ("one script per reachable file-system shape"): with  *)
+(* VIEW viewfs and Bias = "chg" breadth-first search keeps, for every        *)
+(* reachable fs, one shortest history of state-changing requests.  For each *)
+(* of them the table gives the predicted outcome of the probe battery: the  *)
+(* requests (through every symbolic link below the root, and one name       *)
+(* beyond it) that would touch a location outside the root.                 *)
+UseOps == {"open_r", "open_w", "stat", "lstat", "readlink", "remove", "rmdir",
+           "realpath", "opendir", "setstat", "mkdir"}
+LinkLocs(f) == {l \in DOMAIN f : f[l].k = "link" /\ Under(RootLoc, l) /\ l # RootLoc}
+ClientPath(l) == SubSeq(l, 3, Len(l))
+UsePaths(f) == {ClientPath(l) : l \in LinkLocs(f)} \cup
+               {Append(ClientPath(l), "a") : l \in LinkLocs(f)}
+EscSet(f) == {<<op, p>> \in UseOps \X UsePaths(f) :
+                 \E l \in Do(f, op, p, <<"">>).touched : ~Under(RootLoc, l)}
+StateTable == PrintT(<<"ST", hist, itree, fs, esc, EscSet(fs)>>)
 
 (* vacuity witnesses (each must be violated = the situation is reachable) *)
 NeverLink  == \A l \in DOMAIN fs : fs[l].k # "link"
